@@ -138,6 +138,12 @@ def firstBattery (ss : List Supply) : Option Supply :=
   let bats := ss.filter fun s => isBatteryName s.name
   bats.find? fun b => bats.all fun b' => lexLe b.name b'.name
 
+/-- the supply called `n`, if any -/
+def supplyNamed (ss : List Supply) (n : Bytes) : Option Supply := ss.find? (fun s => s.name == n)
+
+/-- the `online` file of the supply called `n` (absent when there is no such supply) -/
+def onlineOf (ss : List Supply) (n : Bytes) : FileState := ((supplyNamed ss n).map (·.online)).getD .absent
+
 def acOnline (ss : List Supply) : Option (Option Int) :=
   let onl (n : Bytes) : FileState := match ss.find? (fun s => s.name == n) with | some s => s.online | none => .absent
   altInt (onl bAC0) (onl bAC)
